@@ -13,12 +13,12 @@ import (
 // C07: decoding is total and its normalisation is idempotent.
 
 type c07Case struct {
-	Type     string `json:"type"`
-	Input    string `json:"input"`              // the bytes to decode (valid UTF-8 in all generated cases)
-	Direct   bool   `json:"direct,omitempty"`   // call UnmarshalJSON directly
-	Totality bool   `json:"totality,omitempty"` // case-variant member name: only totality is checked
-	Gen      string `json:"gen,omitempty"`      // generator that produced it
-	Nest     *c07Nest `json:"nest,omitempty"`   // deep nesting cases are stored compactly
+	Type     string   `json:"type"`
+	Input    string   `json:"input"`              // the bytes to decode (valid UTF-8 in all generated cases)
+	Direct   bool     `json:"direct,omitempty"`   // call UnmarshalJSON directly
+	Totality bool     `json:"totality,omitempty"` // case-variant member name: only totality is checked
+	Gen      string   `json:"gen,omitempty"`      // generator that produced it
+	Nest     *c07Nest `json:"nest,omitempty"`     // deep nesting cases are stored compactly
 }
 
 type c07Nest struct {
@@ -354,7 +354,7 @@ func c07Run(c *Ctx) {
 func init() {
 	register(&CheckDef{
 		ID: "C07", Build: "light", Run: c07Run, RunCase: c07RunCase, Risky: true,
-		Rule: "states = (a) every string of length <= bound over the 14 symbols { } [ ] \" : , 0 - n t \\ space a, (b) every single-position mutation (19 replacement values, delete, duplicate with 5 values, case variant, wrap) of every seed document of cost <= 1 of the 17 kinds, directly and below the Swagger root, (c) nesting of each recursive position to the listed depths; each decoded into every exported data type (json.Unmarshal, and UnmarshalJSON called directly); oracle: no panic/death, and decode->encode is a byte-exact fixed point; non-trivial = the input decoded successfully and the fixed point was checked",
+		Rule:        "states = (a) every string of length <= bound over the 14 symbols { } [ ] \" : , 0 - n t \\ space a, (b) every single-position mutation (19 replacement values, delete, duplicate with 5 values, case variant, wrap) of every seed document of cost <= 1 of the 17 kinds, directly and below the Swagger root, (c) nesting of each recursive position to the listed depths; each decoded into every exported data type (json.Unmarshal, and UnmarshalJSON called directly); oracle: no panic/death, and decode->encode is a byte-exact fixed point; non-trivial = the input decoded successfully and the fixed point was checked",
 		Assumptions: []string{"member names that case-fold onto a keyword are checked for totality only (the statement's exception)", "a case that kills the worker process (stack exhaustion, fatal error) is attributed to the announced case and reported as a violation"},
 		MinOutcomes: 3,
 	})
